@@ -6,6 +6,7 @@
 package dag
 
 import (
+	"context"
 	"crypto/sha256"
 	"encoding/hex"
 	"encoding/json"
@@ -16,6 +17,7 @@ import (
 	"strings"
 	"testing"
 
+	"github.com/nuts-foundation/nuts-node/crypto/hash"
 	"github.com/sirupsen/logrus"
 
 	"verif/enum"
@@ -88,7 +90,7 @@ func vc06MakeBase() *vc06Base {
 
 func (b *vc06Base) inst(t testing.TB, state string) *vc06Inst {
 	in := vc06NewInst(b.env, vc06SubDefs, nil)
-	if state == "base" {
+	if state == "base" || state == "basewp" {
 		for _, s := range []struct {
 			spec vc06Spec
 			by   []byte
@@ -99,11 +101,25 @@ func (b *vc06Base) inst(t testing.TB, state string) *vc06Inst {
 			}
 		}
 	}
+	if state == "basewp" {
+		// a payload arrives later for A1's reference through WritePayload: it is in the payload store before any transaction declaring it is offered
+		wp, wh := vc06PayloadFor("written-earlier")
+		tx, err := ParseTransaction(b.bA1)
+		if err != nil {
+			t.Fatal(err)
+		}
+		if err := in.st.WritePayload(context.Background(), tx, hash.SHA256Hash(vc06MustRef(wh)), wp); err != nil {
+			t.Fatalf("harness: WritePayload: %v", err)
+		}
+		in.model.writePayload(vc06MustRef(b.rA1), vc06MustRef(wh), wp)
+		in.logSeen, in.modSeen = len(in.log), len(in.model.notified)
+	}
 	return in
 }
 
 type vc06Template struct {
 	Name       string
+	PayloadOf  string // the name whose payload this transaction declares (default: its own)
 	State      string
 	Hdr        map[string]any
 	PayloadSeg string
@@ -116,9 +132,14 @@ type vc06Template struct {
 func vc06Templates(b *vc06Base) []vc06Template {
 	ring := vc06Ring()
 	var out []vc06Template
+	payloadOf := ""
 	add := func(name, state string, k *vc06Key, useKid bool, prevs []string, lc int, ver int, pal any, withPayload bool) {
-		p, ph := vc06PayloadFor(name)
-		t := vc06Template{Name: name, State: state, Hdr: vc06Hdr(k, useKid, prevs, lc, ver, pal), PayloadSeg: ph, Key: k.Name, Expect: lc}
+		po := name
+		if payloadOf != "" {
+			po = payloadOf
+		}
+		p, ph := vc06PayloadFor(po)
+		t := vc06Template{Name: name, PayloadOf: po, State: state, Hdr: vc06Hdr(k, useKid, prevs, lc, ver, pal), PayloadSeg: ph, Key: k.Name, Expect: lc}
 		if withPayload {
 			t.Payload, t.HasPayload = p, true
 		}
@@ -131,6 +152,12 @@ func vc06Templates(b *vc06Base) []vc06Template {
 	add("private-pal", "base", ring.A, false, []string{b.rA1}, 2, 2, []string{"QUJDRA==", "RUZHSA=="}, false)
 	add("ver1-rsa", "base", ring.C, false, []string{b.rB1}, 2, 1, nil, true)
 	add("es512", "base", ring.D, false, []string{b.rR}, 1, 2, nil, true)
+	// the declared payload hash is ALREADY in the payload store: a sibling with the payload of A1, and a payload that was
+	// written earlier by WritePayload (a private payload that arrived after its transaction)
+	payloadOf = "A1"
+	add("same-payload-as-present-tx", "base", ring.A, false, []string{b.rA1}, 2, 2, nil, true)
+	payloadOf = "written-earlier"
+	add("payload-written-earlier", "basewp", ring.A, false, []string{b.rB1}, 2, 2, nil, true)
 	return out
 }
 
@@ -317,7 +344,7 @@ func vc06Mutations(b *vc06Base, t vc06Template) []vc06Mut {
 		out = append(out, vc06Mut{"@payloadseg", "payloadseg=" + k, func(s *vc06Spec, h map[string]any) { s.PayloadSeg = v }})
 	}
 	// payload offered with the transaction
-	hp, _ := vc06PayloadFor(t.Name)
+	hp, _ := vc06PayloadFor(t.PayloadOf)
 	out = append(out, vc06Mut{"@payload", "payload=none", func(s *vc06Spec, h map[string]any) { s.Payload, s.HasPayload = nil, false }})
 	out = append(out, vc06Mut{"@payload", "payload=right", func(s *vc06Spec, h map[string]any) { s.Payload, s.HasPayload = hp, true }})
 	out = append(out, vc06Mut{"@payload", "payload=wrong", func(s *vc06Spec, h map[string]any) { s.Payload, s.HasPayload = []byte("wrong bytes"), true }})
@@ -388,6 +415,7 @@ type vc06Case struct {
 	Spec     vc06Spec
 	Bytes    string `json:",omitempty"` // exact bytes offered (replay)
 	PreBytes string `json:",omitempty"` // the honest transaction that is added FIRST (re-encoding cases)
+	PrePay   string `json:",omitempty"` // name of the payload offered with it
 	Honest   bool
 }
 
@@ -452,7 +480,7 @@ func vc06BuildCases(b *vc06Base, pairs bool) []vc06Case {
 			en = append(en, k)
 		}
 		sort.Strings(en)
-		hp, _ := vc06PayloadFor(t.Name)
+		hp, _ := vc06PayloadFor(t.PayloadOf)
 		for _, k := range en {
 			for _, withPayload := range []bool{true, false} {
 				sp := vc06Spec{Desc: t.Name + "|re-encoding-after-add:" + k, Payload: hp, HasPayload: withPayload}
@@ -460,7 +488,7 @@ func vc06BuildCases(b *vc06Base, pairs bool) []vc06Case {
 					sp.Payload = nil
 				}
 				out = append(out, vc06Case{Template: t.Name, State: t.State, Desc: fmt.Sprintf("re-encoding-after-add:%s/payload=%v", k, withPayload), Spec: sp,
-					Bytes: hex.EncodeToString(encs[k]), PreBytes: hex.EncodeToString(hb)})
+					Bytes: hex.EncodeToString(encs[k]), PreBytes: hex.EncodeToString(hb), PrePay: t.PayloadOf})
 			}
 			sp := vc06Spec{Desc: t.Name + "|re-encoding:" + k, Payload: t.Payload, HasPayload: t.HasPayload}
 			out = append(out, vc06Case{Template: t.Name, State: t.State, Desc: "re-encoding:" + k, Spec: sp, Bytes: hex.EncodeToString(encs[k])})
@@ -492,8 +520,8 @@ func TestVerifC06Inputs(t *testing.T) {
 	logrus.SetLevel(logrus.PanicLevel)
 	r := ev.Start(t, "C06")
 	defer r.Finish()
-	r.Rule("inputs: 7 valid transactions (embedded-jwk root, embedded-jwk merge, kid update under the key of document version 1 and of version 2, " +
-		"private with PAL, ver 1 with an RSA-PSS key, ES512) x every single mutation from a finite alphabet per protected header " +
+	r.Rule("inputs: 9 valid transactions (embedded-jwk root, embedded-jwk merge, kid update under the key of document version 1 and of version 2, " +
+		"private with PAL, ver 1 with an RSA-PSS key, ES512, a sibling declaring the payload of a present transaction, a transaction declaring a payload that WritePayload stored earlier) x every single mutation from a finite alphabet per protected header " +
 		"(alg,cty,crit,sigt,ver,prevs,lc,pal,kid,jwk + b64/jku/x5c/unknown: missing, 16 type confusions, header-specific extremes), duplicated members, " +
 		"payload segment, signature, signer, serialisation (compact re-encodings, flattened/general JSON with 0/1/2 signatures, unprotected headers) and offered payload; " +
 		"every mutant is RE-SIGNED over the headers as sent; plus, for every template, ~70 liberal re-encodings of the SAME signed triple (CR / LF / CRLF inside, before and after each segment, " +
@@ -562,7 +590,7 @@ func TestVerifC06Inputs(t *testing.T) {
 		if insts[key] == nil && c.PreBytes != "" {
 			in := b.inst(t, c.State)
 			pre, _ := hex.DecodeString(c.PreBytes)
-			hp, _ := vc06PayloadFor(c.Template)
+			hp, _ := vc06PayloadFor(c.PrePay)
 			if o := in.offer(pre, hp, true, false); !o.Admitted || !o.V.Admit {
 				t.Fatalf("harness: the honest transaction of %s was not admitted before its re-encodings: %+v", c.Template, o)
 			}
